@@ -100,6 +100,18 @@ def run_case(case, rng):
             ev = float(res.expected_value)
             case.check(abs(ev - float(init @ got @ np.array(pomdp.initial_state_vec))) <= tol,
                        "evaluator:expected_value!=state_value@initial-distribution", "", **facts)
+        # ---- the same controller with its node transitions written in the 3-D form p(n' | n, o) -------------------------
+        if rng.random() < 0.5:
+            eta3 = np.array([[_simplex(rng, nn) for _ in OL] for _ in range(nn)])
+            eta4 = np.repeat(eta3[:, None, :, :], len(A), axis=1)
+            res3 = case.call("stochastic_fsc_policy_evaluation_exact(3-D node transitions)",
+                             ga_mod.stochastic_fsc_policy_evaluation_exact, pomdp, torch.tensor(psi), torch.tensor(eta3),
+                             fsc_initial_state=torch.tensor(init), facts=facts)
+            case.count("evaluator_calls")
+            case.count("evaluator_calls_3d_form")
+            if res3 is not case.FAIL:
+                compare_eval("evaluator(3-D node transitions)", psi, eta4, res3.state_controller_value.numpy(),
+                             extra=dict(node_transition_form="p(n'|n,o)"))
         # ---- executing the controller: all histories ------------------------------------------------------
         ctrl = case.call("StochasticFiniteStateController", StochasticFiniteStateController, pomdp, psi, eta, init)
         if ctrl is case.FAIL:
@@ -146,6 +158,15 @@ def run_case(case, rng):
                 case.check(traj[0].state == s0 and np.array_equal(np.asarray(traj[0].agentstate), e),
                            "controller:run_on-does-not-start-at-given-state-or-node",
                            lambda: f"given ({s0!r}, {e.tolist()}) got ({traj[0].state!r}, {np.asarray(traj[0].agentstate).tolist()})", **facts)
+                # the whole (short) run is a chain of real steps that never continues out of an absorbing state
+                steps = list(traj)
+                ok = steps[-1].action is None
+                for st_, nx_ in zip(steps[:-1], steps[1:]):
+                    ok = ok and st_.state not in sp.flag and st_.action in A and st_.nextstate == nx_.state \
+                        and sp.succ(st_.state, st_.action).get(st_.nextstate, 0) > 0
+                case.check(ok and (len(steps) == 1 if s0 in sp.flag else len(steps) >= 2),
+                           "controller:run_on-steps-out-of-an-absorbing-state-or-breaks-the-chain",
+                           lambda: f"start {s0!r} (absorbing={s0 in sp.flag}): {[(x.state, x.action) for x in steps]!r}", **facts)
     else:
         nn = rng.randint(1, 3)
         seed = rng.choice([0, 1, rng.randrange(2 ** 31)])
